@@ -624,7 +624,7 @@ def _callers_of(P: Program, name: str) -> int:
     return n
 
 
-def _inlinable(P: Program, f: Func, c: ast.Call) -> Optional[Func]:
+def _inlinable(P: Program, f: Func, c: ast.Call, allow_yield: bool = False) -> Optional[Func]:
     """A same-class private method (self._m(...)) or same-module private function (_f(...)) with a single call site in the
     package, positional/keyword arguments only, and `return` only as its last statement."""
     fn = c.func
@@ -658,7 +658,12 @@ def _inlinable(P: Program, f: Func, c: ast.Call) -> Optional[Func]:
     for x in own_nodes(target.node):
         if isinstance(x, ast.Name) and isinstance(x.ctx, (ast.Store, ast.Del)) and x.id in pset:
             return None
-    if any(isinstance(x, (ast.Yield, ast.YieldFrom, ast.Global, ast.Nonlocal)) for x in own_nodes(target.node)):
+    has_yield = any(isinstance(x, (ast.Yield, ast.YieldFrom)) for x in own_nodes(target.node))
+    if any(isinstance(x, (ast.Global, ast.Nonlocal)) for x in own_nodes(target.node)):
+        return None
+    if has_yield != allow_yield:
+        return None      # a generator helper is looked through only where it is delegated to with `yield from`; a plain helper only where it is called
+    if has_yield and any(r.value is not None for r in rets):
         return None
     return target
 
@@ -861,6 +866,18 @@ def _inline_helpers(P: Program, f: Func, depth: int = 2) -> Func:
                 call, kind = st.value, "return"
             elif isinstance(st, ast.Expr) and isinstance(st.value, ast.Yield) and isinstance(st.value.value, ast.Call):
                 call, kind = st.value.value, "yield"
+            elif isinstance(st, ast.Expr) and isinstance(st.value, ast.YieldFrom) and isinstance(st.value.value, ast.Call) and d > 0 \
+                    and _inlinable(P, f, st.value.value, allow_yield=True) is not None:
+                # `yield from self._sub_generator(..)` used as a statement: the sub-generator's body runs right here, its yields are ours
+                tg_ = _inlinable(P, f, st.value.value, allow_yield=True)
+                counter[0] += 1
+                body_, _ret = _instantiate(tg_, st.value.value, f"i{counter[0]}")
+                body_ = expand(body_, d - 1)
+                for b in body_:
+                    ast.copy_location(b, b if hasattr(b, "lineno") else st)
+                out.extend(body_)
+                changed_any = True
+                continue
             target = _inlinable(P, f, call) if (call is not None and d > 0) else None
             if target is not None:
                 counter[0] += 1
@@ -942,7 +959,7 @@ def private_closure(P: Program, f: Func, depth: int = 3) -> Set[str]:
             continue
         for c in own_nodes(g.node):
             if isinstance(c, ast.Call):
-                t = _inlinable(P, g, c)
+                t = _inlinable(P, g, c) or (_inlinable(P, g, c, allow_yield=True) if isinstance(parent(c), ast.YieldFrom) else None)
                 if t is not None and t.qual not in out:
                     out.add(t.qual)
                     cand[t.qual] = t
